@@ -407,6 +407,96 @@ def rule_xspace(ck, name, f):
         ck.ob('x-space', key, f.where(), not bad_space, '; '.join(bad_space[:2]))
 
 
+def _rot_entry(f, e, cs, sn):
+    """(sign, 'c' | 's', conjugated?) for an expression that is +-cs, +-sn, +-adjoint(cs), +-adjoint(sn) (cs, sn: parameter decls), else None"""
+    e = unwrap(e)
+    sign = 1
+    while e is not None and e['k'] == 'un' and e['op'] in ('-', '+'):
+        if e['op'] == '-':
+            sign = -sign
+        e = unwrap(e['e'])
+    conj = False
+    if e is not None and e['k'] == 'call' and (e.get('f') or '').split('::')[-1] in ('adjoint', 'conj') and len(e.get('a', [])) == 1:
+        conj = True
+        e = unwrap(e['a'][0])
+    if e is not None and e['k'] == 'ref' and e['d'] in (cs, sn):
+        return (sign, 'c' if e['d'] == cs else 's', conj)
+    return None
+
+
+def rule_rotation_apply(ck, units):
+    """rotation-apply-unitary: apply_plane_rotation(dx, dy, cs, sn) multiplies (dx, dy) by a 2x2 matrix built from cs, sn.  Its second row
+    must annihilate dy for the pair produced by generate_plane_rotation (sn = (dy/dx) cs), i.e. be +-(-sn, cs); the matrix is unitary
+    for |cs|^2 + |sn|^2 = 1 only if the first row is then +-(adjoint(cs), adjoint(sn)).  Checked on the complex instantiation by reading
+    the two linear forms off the assignments (any statement order, a temporary for the new dx)."""
+    ck.rule('rotation-apply-unitary', 'apply_plane_rotation<complex>: new dy = +-(-sn dx + cs dy), new dx = +-(adjoint(cs) dx + adjoint(sn) dy) - the only unitary completion of the '
+                                      'annihilating row', 1)
+    done = False
+    for u in units.values():
+        for f in u.funcs:
+            if done or f.q != 'amgcl::solver::detail::apply_plane_rotation' or f.body is None or len(f.params) != 4:
+                continue
+            if 'complex' not in u.type(f.decl(f.params[0]).get('ct')):
+                continue
+            done = True
+            dx, dy, cs, sn = f.params
+            forms = {}       # target decl -> {dx: entry, dy: entry}
+
+            def linear(e):
+                e = unwrap(e)
+                if e is None or e['k'] not in ('bin', 'opcall') or e.get('op') not in ('+', '-'):
+                    return None
+                out = {}
+                for term, sg in ((e['x'], 1), (e['y'], 1 if e['op'] == '+' else -1)):
+                    t = unwrap(term)
+                    neg = 1
+                    while t is not None and t['k'] == 'un' and t['op'] == '-':
+                        neg = -neg
+                        t = unwrap(t['e'])
+                    if t is None or t['k'] not in ('bin', 'opcall') or t.get('op') != '*':
+                        return None
+                    a, b = t['x'], t['y']
+                    for coef, var in ((a, b), (b, a)):
+                        v = unwrap(var)
+                        ent = _rot_entry(f, coef, cs, sn)
+                        if v is not None and v['k'] == 'ref' and v['d'] in (dx, dy) and ent is not None:
+                            out[v['d']] = (ent[0] * sg * neg, ent[1], ent[2])
+                return out if len(out) == 2 else None
+            for n in sorted(f.nodes.values(), key=lambda t: t['i']):
+                tgt = init = None
+                if n['k'] in ('bin', 'opcall') and n.get('op') == '=' and unwrap(n['x'])['k'] == 'ref':
+                    tgt, init = unwrap(n['x'])['d'], n['y']
+                elif n['k'] == 'decl':
+                    for v in n['v']:
+                        if v.get('init') is not None:
+                            lf = linear(v['init'])
+                            if lf is not None:
+                                forms[v['d']] = lf
+                    continue
+                if tgt is None:
+                    continue
+                lf = linear(init)
+                if lf is not None:
+                    forms[tgt] = lf
+                else:
+                    r = unwrap(init)
+                    if r is not None and r['k'] == 'ref' and r['d'] in forms:
+                        forms[tgt] = forms[r['d']]      # dx = tmp
+            det = ''
+            rx, ry = forms.get(dx), forms.get(dy)
+            if rx is None or ry is None:
+                det = 'the new dx / dy are not recognisable as linear forms of (dx, dy) with coefficients +-cs, +-sn, +-adjoint(.)'
+            else:
+                c, d = ry[dx], ry[dy]
+                a, b = rx[dx], rx[dy]
+                if not (c[1] == 's' and d[1] == 'c' and not c[2] and not d[2] and c[0] == -d[0]):
+                    det = 'the new dy is not +-(-sn dx + cs dy): it does not annihilate dy for the generated rotation'
+                elif not (a[1] == 'c' and b[1] == 's' and a[2] and b[2] and a[0] == b[0]):
+                    det = ('the new dx is %s%s(cs) dx %s %s(sn) dy; with the annihilating row (-sn, cs) the rotation is unitary only for +-(adjoint(cs) dx + adjoint(sn) dy) '
+                           '(a complex cosine arises in the |dy| > |dx| branch of generate_plane_rotation)' % ('-' if a[0] < 0 else '', 'adjoint' if a[2] else 'plain', '-' if b[0] < 0 else '+', 'adjoint' if b[2] else 'plain'))
+            ck.ob('rotation-apply-unitary', 'apply_plane_rotation<complex>', f.where(), not det, det)
+
+
 def rule_rotation(ck, units):
     """rotation-unitary: the plane rotation [conj(cs) conj(sn); -sn cs] generated for (dx, dy) is unitary iff |cs|^2 + |sn|^2 = 1.  With
     t = dy/dx (or dx/dy) and cs = 1/sqrt(1 + q), sn = t cs this needs q = |t|^2; for a complex scalar the plain square t*t is a different
@@ -478,6 +568,7 @@ def main(tier):
         ck.brk('solver classes not instantiated: %s' % missing)
     ipu = ir.run_units([dict(name='ip_unit', src=os.path.join(T, 'ip_unit.cpp'))], 'C05i')
     rule_rotation(ck, dict(units, **ipu))
+    rule_rotation_apply(ck, dict(units, **ipu))
     ck.assumptions += ['optimality of the iterates (CG A-norm, GMRES residual minimisation), agreement with dense reference implementations and finite termination are numerical and NOT decided',
                        'the preconditioner P and the matrix A are fixed linear operators during one solve']
     return ck.finish()
